@@ -247,6 +247,28 @@ class Desugar(ast.NodeTransformer):
             for x in out:
                 ast.fix_missing_locations(x)
             return out
+        # unpacking a comprehension over a literal tuple:  a, b = (f(p) for p in (x, y))  ->  a, b = (f(x), f(y))
+        # (one generator, no filter, as many items as targets; the element expression is evaluated once per item, in order)
+        if len(node.targets) == 1 and isinstance(node.targets[0], (ast.Tuple, ast.List)) \
+                and isinstance(node.value, (ast.GeneratorExp, ast.ListComp)) and len(node.value.generators) == 1:
+            g = node.value.generators[0]
+            if not g.ifs and not g.is_async and isinstance(g.target, ast.Name) and isinstance(g.iter, (ast.Tuple, ast.List)) \
+                    and len(g.iter.elts) == len(node.targets[0].elts) and not any(isinstance(x, ast.Starred) for x in g.iter.elts) \
+                    and all(isinstance(x, (ast.Name, ast.Attribute, ast.Constant, ast.Subscript)) for x in g.iter.elts):
+                var = g.target.id
+
+                class _SubVar(ast.NodeTransformer):
+                    def __init__(self, repl):
+                        self.repl = repl
+
+                    def visit_Name(self, n):
+                        if n.id == var and isinstance(n.ctx, ast.Load):
+                            return copy.deepcopy(self.repl)
+                        return n
+
+                elems = [_SubVar(x).visit(copy.deepcopy(node.value.elt)) for x in g.iter.elts]
+                node = ast.copy_location(ast.Assign(targets=node.targets, value=ast.copy_location(ast.Tuple(elts=elems, ctx=ast.Load()), node.value)), node)
+                ast.fix_missing_locations(node)
         # element-wise tuple assignment whose values do not mention the targets:  a, b = e1, e2  ->  a = e1 ; b = e2
         # (a swap `a, b = b, a` mentions them and stays as it is)
         if len(node.targets) == 1 and isinstance(node.targets[0], (ast.Tuple, ast.List)) and isinstance(node.value, (ast.Tuple, ast.List)) \
